@@ -38,6 +38,7 @@ def main():
             r = subprocess.run(['/verif/check', pid, '--tier', tier], env=env, capture_output=True, text=True)
             lines = [l for l in r.stdout.split('\n') if l.startswith('VIOLATION') or l.startswith('  problem')]
             verdict = {0: 'SURVIVED', 1: 'KILLED', 2: 'HARNESS-ERROR'}.get(r.returncode, str(r.returncode))
+            if r.returncode == 1 and not any(l.startswith('VIOLATION') for l in lines): verdict = 'HARNESS-ERROR'; print(r.stderr[-800:])
             print(f'{os.path.basename(patch)} {pid}: {verdict} ' + (lines[0][:160] if lines else ''))
             if r.returncode == 2:
                 print(r.stderr[-1500:])
